@@ -102,18 +102,47 @@ fn program(kind: &str, no_std: bool, variant: u64, seed: u64) -> String {
             }
         }
         ("accepted", true) => format!("k :: {}\n\nf :: fn a: int -> int do\n    a * 2\nend\n\nstart :: fn do\n    x := f(k) + 1\n    x <=> {}\nend\n", variant + 1, (variant + 1) * 2 + 1),
-        ("rejected", _) => [
-            "start :: fn do\n    x := 1 + \"s\"\nend\n",
-            "start :: fn do\n    x := 1 +\nend\n",
-            "start :: fn do\n    y := undefined_q\nend\n",
-            "a :: b + 1\nb :: a\nstart :: fn do\nend\n",
-            "u :: step\nstep :: step + 1\nstart :: fn do\nend\n",
-            "start :: fn do\n    q := step\nend\nstep :: step + 1\n",
-            "use nope\nstart :: fn do\nend\n",
-            "start :: fn do\nend\nstart :: fn do\nend\n",
-            "<<<<<<< HEAD\nstart :: fn do\nend\n",
-        ][(variant % 9) as usize]
-            .to_string(),
+        ("rejected", _) => {
+            let fixed = [
+                "start :: fn do\n    x := 1 + \"s\"\nend\n",
+                "start :: fn do\n    x := 1 +\nend\n",
+                "start :: fn do\n    y := undefined_q\nend\n",
+                "a :: b + 1\nb :: a\nstart :: fn do\nend\n",
+                "u :: step\nstep :: step + 1\nstart :: fn do\nend\n",
+                "start :: fn do\n    q := step\nend\nstep :: step + 1\n",
+                "use nope\nstart :: fn do\nend\n",
+                "start :: fn do\nend\nstart :: fn do\nend\n",
+                "<<<<<<< HEAD\nstart :: fn do\nend\n",
+                // several files: errors in the main file, in a file it imports, in a file that one imports, and a missing file
+                "use helper_q\nstart :: fn do\n    x := 1 +\nend\n",
+                "use helper_q\nstart :: fn do\nend\n",
+                "use okhelper_q\nstart :: fn do\n    y := )\nend\n",
+                "use okhelper_q\nuse helper_q\nstart :: fn do\nend\n",
+            ];
+            // error-count ladder: programs for which the compiler reports N errors at once
+            // (N broken lines; an initialisation cycle through N definitions)
+            const LADDER: &[usize] = &[2, 3, 16, 100, 255, 256, 257, 511, 512, 513, 768, 1024];
+            let k = (variant % (fixed.len() + 2 * LADDER.len()) as u64) as usize;
+            if k < fixed.len() {
+                fixed[k].to_string()
+            } else if k < fixed.len() + LADDER.len() {
+                let n = LADDER[k - fixed.len()];
+                let mut t = String::new();
+                for i in 0..n {
+                    t.push_str(&format!("c{} :: )\n", i));
+                }
+                t.push_str("start :: fn do\nend\n");
+                t
+            } else {
+                let n = LADDER[k - fixed.len() - LADDER.len()];
+                let mut t = String::new();
+                for i in 0..n {
+                    t.push_str(&format!("v{} :: v{} + 1\n", i, (i + 1) % n));
+                }
+                t.push_str("start :: fn do\nend\n");
+                t
+            }
+        }
         ("fails-assert", _) => format!("start :: fn do\n    x := {}\n    x <=> {}\nend\n", variant, variant + 1),
         (_, _) => format!("start :: fn do\n    x := {}\n    if x == {} do\n        <!>\n    end\nend\n", variant, variant),
     }
@@ -142,15 +171,38 @@ fn judge_cell(c: &Cell, seed: u64, case: u64, st: &mut Stats) {
     let _ = std::fs::create_dir_all(&work);
     let _ = std::fs::create_dir_all(&bindir);
     let _ = std::os::unix::fs::symlink(lua_bin(), bindir.join("lua"));
-    let src = program(c.prog, c.no_std, c.variant, seed);
+    // rejected programs: the cell's coordinates pick one of 9 hand-written rejections or a rung of the error-count ladder
+    let pv = if c.prog == "rejected" { c.variant + 9 * (hash64(format!("{:?}{:?}{}{}", c.mode, c.require, c.no_std, c.file_state).as_bytes()) % 997) } else { c.variant };
+    let src = program(c.prog, c.no_std, pv, seed);
     let _ = std::fs::write(work.join("prog.sy"), &src);
     let _ = std::fs::write(work.join("mymod.lua"), MODULE_SRC);
     let _ = std::fs::write(work.join("plain.lua"), MODULE_SRC);
     let _ = std::fs::create_dir_all(work.join("pkg"));
     let _ = std::fs::write(work.join("pkg/sub.lua"), MODULE_SRC);
+    // files some rejected programs import: one with a syntax error on line 2 that imports a missing file, and a
+    // valid one that imports a file with a syntax error on line 1
+    let extras: [(&str, &str); 3] = [("helper_q.sy", "use gone_q\nhv_q :: 1 +\n"), ("okhelper_q.sy", "use deep_q\nov_q :: 1\n"), ("deep_q.sy", "dv_q :: )\n")];
+    let mut project = sy::one_file(&src);
+    for (n, t) in extras {
+        let _ = std::fs::write(work.join(n), t);
+        if src.contains("helper_q") {
+            project.insert(n.to_string(), t.to_string());
+        }
+    }
+    // what the driver has to mention, known from how these files were written (not from the compiler)
+    let mut must_mention: Vec<&str> = Vec::new();
+    if src.contains("use helper_q") {
+        must_mention.extend(["helper_q.sy:2", "gone_q"]);
+    }
+    if src.contains("use okhelper_q") {
+        must_mention.push("deep_q.sy:1");
+    }
+    if src.starts_with("use ") && (src.contains("    x := 1 +\n") || src.contains("    y := )\n")) {
+        must_mention.push("prog.sy:3");
+    }
     // expected compile result (in process, same flags)
     let opts = CompileOpts { no_std: c.no_std, require: c.require.map(|m| m.to_string()), fuel: None };
-    let expect = sy::compile_files(&sy::one_file(&src), "main.sy", &opts);
+    let expect = sy::compile_files(&project, "main.sy", &opts);
     let compile_ok = expect.is_ok();
     let expected_bytes: Vec<u8> = match &expect {
         Compiled::Ok(b) => b.clone(),
@@ -292,6 +344,11 @@ fn judge_cell(c: &Cell, seed: u64, case: u64, st: &mut Stats) {
         if !compile_ok && bad.is_none() {
             // every error the compiler returned is printed: its rendering (colours stripped) appears on stdout
             let text = sy::strip_ansi(&String::from_utf8_lossy(&ob.stdout));
+            for m in &must_mention {
+                if !text.contains(m) {
+                    bad = Some(("driver:planted-error-not-printed", format!("nothing on stdout mentions `{}`", m)));
+                }
+            }
             if let Compiled::Err { errors, .. } = &expect {
                 for e in errors {
                     let first = e.display.lines().find(|l| !l.trim().is_empty()).unwrap_or("").trim().to_string();
@@ -413,7 +470,7 @@ impl Check for C20 {
         }
         Finish {
             level: "fault_enumeration",
-            rule: "exhaustive matrix: {run (lua on PATH = luamon CLI), -o FILE, -o -} x {no --require, --require mymod.lua, --require pkg.sub (dotted submodule), --require plain} x {--no-std, std} x {accepted, rejected, fails <=>, reaches <!>} x (for -o FILE) {FILE absent, present with short old content, present with a larger earlier build result, in a missing directory, in a read-only directory, is a directory}, 9 program variants per cell (hand-written, generated, and programs whose emitted Lua has 3-12 kB lines). Oracle per cell: exit status 0 iff compile (and run) succeed and the output is writable; errors printed; FILE byte-equal to the in-process compilation or untouched on failure; -o - stdout byte-equal; exactly one `require` call naming M (without a trailing .lua), placed after the preamble marker and not after the first emitted statement, executed once; std-free programs behave the same with and without --no-std. Non-trivial & distinct: matrix cells.".into(),
+            rule: "exhaustive matrix: {run (lua on PATH = luamon CLI), -o FILE, -o -} x {no --require, --require mymod.lua, --require pkg.sub (dotted submodule), --require plain} x {--no-std, std} x {accepted, rejected, fails <=>, reaches <!>} x (for -o FILE) {FILE absent, present with short old content, present with a larger earlier build result, in a missing directory, in a read-only directory, is a directory}, 9 program variants per cell (hand-written, generated, and programs whose emitted Lua has 3-12 kB lines; rejected programs: 13 hand-written kinds (4 of them spread over several files, with errors planted at known file:line places that the output has to mention) plus an error-count ladder - N broken lines or an initialisation cycle through N definitions, N in 2..1024 around 256 and 512). Oracle per cell: exit status 0 iff compile (and run) succeed and the output is writable; errors printed; FILE byte-equal to the in-process compilation or untouched on failure; -o - stdout byte-equal; exactly one `require` call naming M (without a trailing .lua), placed after the preamble marker and not after the first emitted statement, executed once; std-free programs behave the same with and without --no-std. Non-trivial & distinct: matrix cells.".into(),
             extra: J::obj().with("matrix_cells", J::Int(cells().len() as i64)),
             assumptions: vec![
                 "the `lua` the driver spawns is the luamon CLI (no real Lua in the sandbox); when running as root a read-only directory is writable, that column then expects success".into(),
